@@ -144,7 +144,7 @@ def run(rep):
     plats = {}
     for p in PLATFORMS:
         try:
-            path, obs, info = gen_prompts.generate_platform(p, wd, session_names, additive)
+            path, obs, info = gen_prompts.generate_platform(p, wd, session_names, additive, extra_tables=("s2",))
         except Exception as e:
             rep.broken.append("gen_prompts(%s): %s" % (p, e))
             continue
@@ -432,16 +432,18 @@ def correspondence(rep, rx, plats, rng, thorough, info_all):
         terms, meta = [], []
         for h in range(40 if thorough else 12):
             pool = []
-            for o in base_obs + sess_obs:
+            for o in base_obs + [x for x in sess_obs if x["mode"] == "s1"] * 2:
                 m = sample_member(rx, o, rng, 10)
                 if m:
                     pool.append(m)
-            pool = pool[:6] or [b"r1#"]
-            ops = []
-            for _ in range(rng.randint(3, 9)):
-                ops.append(("Q", rng.choice(pool)))
-            ops.insert(rng.randint(1, len(ops)), ("R",))
-            ops += [("Q", x) for x in rng.sample(pool, min(3, len(pool)))]
+            pool = pool or [b"r1#"]
+            # history: queries, register s1, queries, then the user retires s1 and registers s2 (on NX-OS the two session
+            # levels have the SAME pattern text: only the level name changes), queries again
+            def qs(n):
+                return [("Q", rng.choice(pool)) for _ in range(n)]
+            ops = qs(rng.randint(1, 4)) + [("R",)] + qs(rng.randint(2, 5)) + [("Q", x) for x in pool[-2:]]
+            if rng.random() < 0.7:
+                ops += [("S",)] + qs(rng.randint(2, 4)) + [("Q", x) for x in pool[-2:]]
             for stack in ("sync", "async"):
                 drv = make_real_driver(p, "base", stack)
                 raw = type(drv)._determine_current_priv.__wrapped__
@@ -457,14 +459,20 @@ def correspondence(rep, rx, plats, rng, thorough, info_all):
                             want = []
                         if got != want:
                             hist_stats["stale_detected"] += 1
+                        if got != want and hist_stats["stale_detected"] <= 3:
                             rep.violation("stale classification of %r after the privilege table changed: cached %s, current table gives %s" % (t, got, want),
                                           {"kind": "cache", "platform": p, "stack": stack, "ops": [[o[0]] + [x.hex() for x in o[1:]] for o in ops]})
                         outs.append("Some (%s)" % ("None" if not got else "Some [%s]" % "; ".join('"%s"%%string' % n for n in got)))
                         coq_ops.append("Query %s" % coq_bytes(op[1]))
-                    else:
+                    elif op[0] == "R":
                         drv.register_configuration_session(session_name="s1")
                         outs.append("None")
                         coq_ops.append("Update tbl_session_s1")
+                    else:
+                        drv.privilege_levels.pop("s1")
+                        drv.register_configuration_session(session_name="s2")
+                        outs.append("None")
+                        coq_ops.append("Update tbl_session_s2")
                 terms.append("(%s, %s)" % (coq_list(coq_ops), coq_list(outs)))
                 meta.append((p, stack, ops))
                 hist_stats["histories"] += 1
